@@ -7,8 +7,10 @@
    BlockMath.min_trap_in_block / same_child_same_block) and for attractor-seed expansion from any plainly reached diagram
    (expand_aseeds_MinFound).  The source-SCC strategy is modelled (SCC.v, replayed id by id): its components are the closed,
    strongly connected, pairwise disjoint sets of source_sccs_spec, every node it creates is a trap space of the network
-   (graft_trap, expand_scc_TrapNodes) and it only adds nodes (expand_scc_grows).  PARTIAL: that it misses no minimal trap
-   space is decided by the comparison of minimal_trap_spaces() with Brute.min_traps_b (exact by min_traps_b_spec).
+   (graft_trap, expand_scc_TrapNodes), it only adds nodes (expand_scc_grows), and from a fresh diagram a run reporting completion
+   leaves every node expanded with the expanded leaves being exactly the minimal trap spaces (expand_scc_AllExpanded,
+   expand_scc_LeafOK, expand_scc_MinFound) -- although the diagram it builds is not faithful (D15).  So every strategy of the
+   statement has a theorem.
 
    This file contains only restatements closed by `exact` (statements produced by Coq's own
    `Check` of the library lemma) plus non-vacuity Examples, each followed by Print Assumptions. *)
@@ -17,7 +19,7 @@ Import ListNotations.
 From BB Require Import BN Brute SpaceFacts TrapFacts PercolateFacts AttractorFacts Diagram Invariants Checks Filter
   Strict PetriNet Control Meta FilterFacts PetriNetFacts TrappistFacts DiagramStruct DiagramSem1 DiagramCache
   DiagramDepth DiagramComplete Termination ControlFacts MetaFacts Candidates StrictFacts MinExpandFacts CandidatesFacts SymbolicTest SymbolicTestFacts Signed ReductionFacts ControlFacts2 Main Blocks BlocksFacts ObsFacts OwnerFacts CandidatesTerm
-  PartialOwner BlockMath BlockComplete ASeeds ASeedsFacts LogChecks SkipRule SkipRuleFacts Names NamesFacts Perm PermFacts SCC SCCFacts SCCStruct ControlFacts3 SCCTerm FilterSym Main2 StrategyFacts ControlFacts4 PyLib PySrc PySrcFacts SkipRuleFacts2.
+  PartialOwner BlockMath BlockComplete ASeeds ASeedsFacts LogChecks SkipRule SkipRuleFacts Names NamesFacts Perm PermFacts SCC SCCFacts SCCStruct ControlFacts3 SCCTerm FilterSym Main2 StrategyFacts ControlFacts4 PyLib PySrc PySrcFacts SkipRuleFacts2 SCCComplete.
 
 Theorem C03_bfs_complete : forall (fuel : nat) (N : net) (cfg : config) (d d' : sd), 1 <= max_motifs cfg -> SWF N d -> NoStubEdges d -> EdgeStrict d -> Rooted d -> expand_bfs fuel N cfg d None None None = (d', RBool true) -> AllExpanded d'.
 Proof. exact bfs_complete. Qed.
@@ -117,6 +119,18 @@ Proof. exact expand_scc_TrapNodes. Qed.
 Theorem C03_scc_expansion_grows : forall (fuel : nat) (N : net) (cfg : config) (d : sd) (maa : bool) (tape : tape_t), size d <= size (fst (expand_scc fuel N cfg d maa tape)) /\ (forall i : nat, i < size d -> n_space (get (fst (expand_scc fuel N cfg d maa tape)) i) = n_space (get d i)).
 Proof. exact expand_scc_grows. Qed.
 
+(* source-SCC strategy from a fresh diagram: no minimal trap space is missed *)
+Theorem C03_scc_expansion_complete : forall (fuel : nat) (N : net) (cfg : config) (d' : sd) (maa : bool) (tape : tape_t), 1 <= max_motifs cfg -> expand_scc fuel N cfg (init N) maa tape = (d', RBool true) -> MinFound N d'.
+Proof. exact expand_scc_MinFound. Qed.
+
+(* ... and none is spurious *)
+Theorem C03_scc_expansion_leaves_minimal : forall (fuel : nat) (N : net) (cfg : config) (d' : sd) (maa : bool) (tape : tape_t), 1 <= max_motifs cfg -> expand_scc fuel N cfg (init N) maa tape = (d', RBool true) -> LeafOK N d'.
+Proof. exact expand_scc_LeafOK. Qed.
+
+(* ... and no stub is left behind *)
+Theorem C03_scc_expansion_all_expanded : forall (fuel : nat) (N : net) (cfg : config) (d' : sd) (maa : bool) (tape : tape_t), 1 <= max_motifs cfg -> expand_scc fuel N cfg (init N) maa tape = (d', RBool true) -> AllExpanded d'.
+Proof. exact expand_scc_AllExpanded. Qed.
+
 (* non-vacuity: two bistable switches; x0'=x1, x1'=x0, x2'=x3, x3'=x2 *)
 Definition ex_sw : net := [fun s => nth 1 s false; fun s => nth 0 s false; fun s => nth 3 s false; fun s => nth 2 s false].
 Definition ex_cfg : config := {| max_motifs := 1000 |}.
@@ -155,3 +169,6 @@ Print Assumptions C03_scc_components_disjoint.
 Print Assumptions C03_scc_graft_trap.
 Print Assumptions C03_scc_expansion_trap_nodes.
 Print Assumptions C03_scc_expansion_grows.
+Print Assumptions C03_scc_expansion_complete.
+Print Assumptions C03_scc_expansion_leaves_minimal.
+Print Assumptions C03_scc_expansion_all_expanded.
